@@ -51,6 +51,14 @@ def uleb(v):
             return bytes(out)
 
 
+def uleb_padded(v):
+    """legal non-minimal unsigned LEB128: the minimal form with its last byte continued by a 0x00 septet"""
+    m = bytearray(uleb(v))
+    assert len(m) < 5
+    m[-1] |= 0x80
+    return bytes(m) + b"\x00"
+
+
 def sleb(v):
     out = bytearray()
     while True:
@@ -96,8 +104,9 @@ class Field:
 
 
 class Handler:
-    def __init__(self, pairs=(), catch_all=None):
+    def __init__(self, pairs=(), catch_all=None, pad=False):
         self.pairs, self.catch_all = list(pairs), catch_all
+        self.pad = pad          # True: write this handler's LEB128 numbers in a legal NON-minimal form (one extra 0x00 septet)
 
 
 class Code:
@@ -371,11 +380,12 @@ def build(dex, map_order=None, fix_header=True, return_layout=False, string_data
                     for h in cd.handlers:
                         hoff.append(len(hl))
                         n = len(h.pairs)
+                        ul = uleb_padded if getattr(h, "pad", False) else uleb
                         hl += sleb(-n if h.catch_all is not None else n)
                         for (ty, addr) in h.pairs:
-                            hl += uleb(P.type(ty)) + uleb(addr)
+                            hl += ul(P.type(ty)) + ul(addr)
                         if h.catch_all is not None:
-                            hl += uleb(h.catch_all)
+                            hl += ul(h.catch_all)
                     for (start, count, hi) in cd.tries:
                         b += struct.pack("<IHH", start, count, hoff[hi])
                     b += hl
